@@ -6,7 +6,12 @@ Line-protocol drivers + implementation-output checkers for C12.
 * `mkraccapp` — app stream through the real marker `MsgServer`:
                 `probe op=<Name> acc=<a+b|-> mgr= gov= st= ty= ft= gc= ctl= dest= circ=`
                 `xsetup acc= st= ty= ft= src=<kind> grant=<coins;allow|-> bal=<n>` followed by
-                `xfer amt=<n> to=<P1|P2|P3|RD|RN|BL>` lines (one authz grant, many transfers);
+                `xfer amt=<n> to=<P1|P2|P3|RD|RN|BL> [via=ibc] [by=K]` lines (many transfers under
+                the grants of one history). Optional on `xsetup`: `rgrant=` (a grant the administrator C
+                gave to the source account), `kgrant=` / `krgrant=` (source → second administrator K
+                and back), `acc2=` (the rights of K). `via=ibc` sends a MsgIbcTransferRequest (the ibc
+                transfer module is a stand-in that takes the token into the channel's escrow account),
+                `by=K` makes K the signing administrator. An accepted transfer prints all four grants.
                 `smk` / `sadd` / `sdel` / `smint` / `sburn` / `swd`: a marker created with
                 MsgAddFinalizeActivateMarker and then driven by real messages of named accounts.
                 Optional `rec=<recorded supply> cbal=<caller balance> sup=<coins in existence>`
@@ -163,16 +168,30 @@ def destOfName : String → Dest
 /-- the denom of the marker under test in the app stream -/
 def tokDenom : Denom := "mkrtok"
 
+/-- the accounts of a transfer history: `C` and `K` sign as administrators (`K` is the second
+one, with its own rights on the marker), the coins leave the source account — `S`, or `C` itself
+when the source kind is `self` -/
 structure AState where
-  cfg : Option Cfg := none
-  selfFrom : Bool := false
+  cfg : Option Cfg := none               -- the marker as administrator C sees it
+  acc2 : List Access := []               -- the rights of administrator K on the marker
+  srcName : String := "S"
   src : Acct := { isGroup := false, present := true, seqNonZero := true, isMarker := false, isMarket := false }
-  g0 : Option Grant := none
-  stored : Option Grant := none
+  g0 : AuthzStore := .empty       -- the grants as given
+  stored : AuthzStore := .empty   -- the authz store (follows the implementation)
   bal : Int := 0
-  movedImpl : Coins := []
-  nAcc : Nat := 0
+  movedImpl : List (Pair × (Denom × Int)) := []   -- what the implementation moved under each grant
   mkr : MState := {}
+
+/-- the four grants of a transfer history, by the key they are printed under:
+source→C, C→source, source→K, K→source -/
+def AState.pairs (s : AState) : List (String × Pair) :=
+  [("g", (s.srcName, "C")), ("r", ("C", s.srcName)), ("kg", (s.srcName, "K")), ("kr", ("K", s.srcName))]
+
+def AState.movedOf (s : AState) (p : Pair) : Coins :=
+  (s.movedImpl.filter (fun e => e.1 == p)).map (·.2)
+
+def showStore (s : AState) (t : AuthzStore) : String :=
+  " ".intercalate (s.pairs.map fun (k, p) => s!"{k}={showStored (t p)}")
 
 /-- The property's conclusion for one operation the implementation accepted. -/
 def probeVerdict (op : Op) (c honest : Cfg) (impl : String) : String :=
@@ -187,25 +206,55 @@ def probeVerdict (op : Op) (c honest : Cfg) (impl : String) : String :=
   else if Spec.authorised op c then "fail:access_change_by_vacuous_supply_control"
   else s!"fail:{op.name}_without_right"
 
-/-- The property's conclusion for one transfer the implementation accepted, against the
-ORIGINAL grant and the transfers that used it before. -/
-def xferVerdict (s : AState) (c : Cfg) (u : Use) (dest : Dest) : String :=
+/-- The property's conclusion for one transfer the implementation accepted (`MsgTransferRequest`,
+or `MsgIbcTransferRequest` when `ibc`), signed by `by_` whose view of the marker is `c`, against
+the ORIGINAL grant of (source, `by_`) and the transfers that used it before. No other grant —
+the administrator's to the source, the source's to another administrator — can justify it. -/
+def xferVerdict (s : AState) (c : Cfg) (ibc : Bool) (by_ : String) (u : Use) (dest : Dest) : String :=
+  let self := by_ == s.srcName
+  let p : Pair := (s.srcName, by_)
+  -- only the source account's own grant to this administrator (as originally given) can justify it
+  let byGrant := match s.g0 p with
+    | none => "none"
+    | some g0 => useVerdict g0 (s.movedOf p) (s.movedOf p).length u
+  if ibc then
+    -- 03_messages.md Msg/IbcTransfer: restricted coins, "an account with the transfer permission
+    -- as well as approval from the account the funds will be withdrawn from"
+    if c.mtype != .restricted then "fail:ibc_transfer_of_unrestricted_marker"
+    else if !c.has .transfer then "fail:ibc_transfer_without_right"
+    else if self then "ok"
+    else if byGrant == "none" then "fail:transfer_without_grant"
+    else byGrant
+  else
   if c.status != .active || c.mtype != .restricted then "fail:transfer_on_inactive_or_unrestricted_marker"
   else if !(c.has .transfer || c.has .forceTransfer) then "fail:transfer_without_right"
   else if dest == .rmkNoDep then "fail:transfer_deposit_right_missing"
   else if dest == .blocked then "fail:transfer_to_blocked_recipient"
-  else if s.selfFrom then "ok"
+  else if self then "ok"
   else if c.forced && c.has .forceTransfer && !Spec.moduleOrContractLike s.src then "ok"
   else
-    -- only the source account's own grant (as originally given) can justify this transfer
-    let byGrant := match s.g0 with
-      | none => "none"
-      | some g0 => useVerdict g0 s.movedImpl s.nAcc u
     if byGrant == "ok" then "ok"
     else if c.forced && c.has .forceTransfer then "fail:forced_from_module_or_contract"
     else if byGrant == "none" then
       (if c.has .forceTransfer then "fail:forced_on_marker_that_disallows_it" else "fail:transfer_without_grant")
     else byGrant
+
+/-- The authz store the implementation reports after an accepted transfer: the grant the
+transfer went through (if it went through one) holds the original limit minus everything moved
+under it, and is gone when that is nothing; every other grant is as it was. -/
+def storeVerdict (s : AState) (charged : Bool) (p : Pair) (u : Use) (iw : List String) : String :=
+  let bad := s.pairs.filterMap fun (k, q) =>
+    let got := (kv iw k).getD "?"
+    if charged && q == p then
+      match s.g0 p with
+      | none => none     -- judged by `xferVerdict`
+      | some g0 =>
+        let left := Coins.sub (Coins.sub g0.limit (s.movedOf p)) [(u.denom, u.amount)]
+        let want := if Coins.isZero left then "-" else showLimit left
+        let gotLimit := if Coins.isZero left then got else (got.splitOn ";").headD ""
+        if gotLimit == want then none else some "fail:remaining_limit_wrong"
+    else if got == showStored (s.stored q) then none else some "fail:unrelated_grant_changed"
+  bad.headD "ok"
 
 private def insertSortedBy {α} (lt : α → α → Bool) (x : α) : List α → List α
   | [] => [x]
@@ -271,38 +320,57 @@ def appStep (s : AState) (ws : List String) (impl : Option String) : AState × S
       (s, out, v)
     | _, _ => (s, "bad-op", "-")
   | "xsetup" :: rest =>
-    match parseCfg? rest, (kv rest "src") >>= parseSrc?, (kv rest "grant") >>= parseGrant?,
-        (kv rest "bal") >>= parseInt? with
-    | some c, some (self, a), some g, some b =>
-      ({ cfg := some c, selfFrom := self, src := a, g0 := g, stored := g, bal := b }, "ok", "-")
-    | _, _, _, _ => (s, "bad-op", "-")
+    let grantOf (k : String) : Option (Option Grant) := match kv rest k with
+      | some v => parseGrant? v
+      | none => some none
+    match parseCfg? rest, (kv rest "src") >>= parseSrc?, grantOf "grant", (kv rest "bal") >>= parseInt?,
+        grantOf "rgrant", grantOf "kgrant", grantOf "krgrant", parseAccess? ((kv rest "acc2").getD "-") with
+    | some c, some (self, a), some g, some b, some r, some kg, some kr, some acc2 =>
+      let sn := if self then "C" else "S"
+      -- same order as the harness saves them (a later one replaces an earlier one of the same pair)
+      let t : AuthzStore := (((AuthzStore.empty.put (sn, "C") g).put ("C", sn) r).put (sn, "K") kg).put ("K", sn) kr
+      ({ cfg := some c, acc2 := acc2, srcName := sn, src := a, g0 := t, stored := t, bal := b }, "ok", "-")
+    | _, _, _, _, _, _, _, _ => (s, "bad-op", "-")
   | "xfer" :: rest =>
     match s.cfg, (kv rest "amt") >>= parseInt?, kv rest "to" with
-    | some c, some amt, some to =>
+    | some cC, some amt, some to =>
+      let ibc := kv rest "via" == some "ibc"
+      let by_ := (kv rest "by").getD "C"
+      let c : Cfg := if by_ == "C" then cC else { cC with acc := s.acc2 }
       let u : Use := { denom := tokDenom, amount := amt, to := to }
-      let dest := destOfName to
-      let x : Xfer := { selfFrom := s.selfFrom, src := s.src, dest := dest, stored := s.stored,
-                        use := u, fromBal := s.bal }
-      let r := transferCoin c x
+      -- the destination marker RD lists C (and governance) with `deposit`, not K
+      let dest := if by_ == "K" && to == "RD" then Dest.rmkNoDep else destOfName to
+      let m : TMsg := { ibc := ibc, admin := by_, from_ := s.srcName, cfg := c,
+                        x := { selfFrom := by_ == s.srcName, src := s.src, dest := dest,
+                               stored := s.stored (s.srcName, by_), use := u, fromBal := s.bal } }
+      let r := m.runWith keepAllowListOnUpdate s.stored
       let (s1, out) : AState × String := match r with
-        | .ok st' => ({ s with stored := st', bal := s.bal - amt }, s!"ok grant={showStored st'} recv={amt}")
+        | .ok t' => ({ s with stored := t', bal := s.bal - amt }, s!"ok {showStore s t'} recv={amt}")
         | .error e => (s, e.toString)
-      let implOk := match impl with
-        | some i => (words i).headD "" == "ok"
-        | none => false
+      let iw := match impl with
+        | some i => words i
+        | none => []
+      let implOk := iw.headD "" == "ok"
+      let used := implOk && m.charges
       let v := match impl with
-        | some _ => if implOk then xferVerdict s c u dest else "ok"
+        | some _ =>
+          if implOk then
+            let v := xferVerdict s c ibc by_ u dest
+            if v != "ok" then v else storeVerdict s used (s.srcName, by_) u iw
+          else "ok"
         | none => "-"
-      let used := implOk && usesGrant c x
       -- follow the implementation's state when it is given
       let s1 := match impl with
-        | some i =>
+        | some _ =>
           if implOk then
-            { s with stored := (((kv (words i) "grant") >>= parseGrant?).getD s1.stored), bal := s.bal - amt }
+            let t' := s.pairs.foldl (fun (t : AuthzStore) (k, q) =>
+              match (kv iw k) >>= parseGrant? with
+              | some g => t.put q g
+              | none => t) s1.stored
+            { s with stored := t', bal := s.bal - amt }
           else s
         | none => s1
-      let s2 := { s1 with movedImpl := if used then s.movedImpl ++ [(tokDenom, amt)] else s.movedImpl,
-                          nAcc := if used then s.nAcc + 1 else s.nAcc }
+      let s2 := { s1 with movedImpl := if used then s.movedImpl ++ [((s.srcName, by_), (tokDenom, amt))] else s.movedImpl }
       (s2, out, v)
     | _, _, _ => (s, "bad-op", "-")
   | w :: rest =>
